@@ -9,10 +9,11 @@ import anyio
 import httpx
 from hypothesis import strategies as st
 
+from ..drive import kill_task
 from ..fakehttp import EventStream, install
 from ..jsonrpc_ref import classify, strict_eq
 from ..runner import Collector, Outcome, hyp_run, hyp_shrink
-from ..vclock import run_virtual
+from ..vclock import VirtualDeadlock, run_virtual
 
 ID = "C12"
 LEVEL = "fault_enumeration"
@@ -184,7 +185,10 @@ def check(case: Dict[str, Any]) -> Outcome:
 
             ctask = asyncio.ensure_future(canceller()) if (exit_path == "cancel" and cancel_at is not None) else None
             t0 = loop.time()
-            try:
+            exit_at = case.get("exit_at")  # normal / exception exits: leave the body this long after entering, whatever is in flight
+
+            async def session():
+              try:
                 with scope:
                     try:
                         async with sse_client(SSEParameters(url=BASE, timeout=T)) as (r, w):
@@ -208,10 +212,22 @@ def check(case: Dict[str, Any]) -> Outcome:
 
                                 sf = asyncio.ensure_future(srv_feeder())
                                 feed_tasks.append(sf)
-                                for rq in reqs:
-                                    await w.send(parse_message({"jsonrpc": "2.0", "id": rq["id"], "method": "tools/list", "params": {}}))
-                                    wait = T + 0.5 if rq["mode"] == "202-silence" else max(0.3, rq.get("delta", 0) + 0.3)
-                                    await asyncio.sleep(wait)
+
+                                async def requests():
+                                    for rq in reqs:
+                                        await w.send(parse_message({"jsonrpc": "2.0", "id": rq["id"], "method": "tools/list", "params": {}}))
+                                        wait = T + 0.5 if rq["mode"] == "202-silence" else max(0.3, rq.get("delta", 0) + 0.3)
+                                        await asyncio.sleep(wait)
+
+                                if exit_at is not None and exit_path in ("normal", "exception"):
+                                    rt = asyncio.ensure_future(requests())
+                                    feed_tasks.append(rt)
+                                    await asyncio.sleep(exit_at)
+                                    state["early_exit"] = True
+                                    if exit_path == "exception":
+                                        raise KeyError("body failed")
+                                    return
+                                await requests()
                                 # liveness probe
                                 n0 = len(state["received"])
                                 await w.send(parse_message({"jsonrpc": "2.0", "id": "probe-id", "method": "ping"}))
@@ -240,6 +256,26 @@ def check(case: Dict[str, Any]) -> Outcome:
                         else:
                             raise
                 state["cancelled"] = scope.cancelled_caught
+              except asyncio.CancelledError:
+                if exit_path != "task-cancel":
+                    raise
+                state["cancelled"] = True
+
+            stask = asyncio.ensure_future(session())
+            try:
+                if exit_path == "task-cancel":
+                    # plain asyncio cancellation of the task that owns the context, delivered once
+                    async def tcancel():
+                        await asyncio.sleep(cancel_at or 0.0)
+                        stask.cancel()
+
+                    feed_tasks.append(asyncio.ensure_future(tcancel()))
+                done_, _p = await asyncio.wait([stask], timeout=3 * T + 30)
+                if not done_:
+                    state["hung"] = True
+                    await kill_task(stask)
+                else:
+                    stask.result()
             finally:
                 if ctask is not None:
                     ctask.cancel()
@@ -258,19 +294,25 @@ def check(case: Dict[str, Any]) -> Outcome:
 
     try:
         run_virtual(main)
+    except VirtualDeadlock as e:
+        out.fail("leaving-the-context-hangs", f"exit={exit_path} exit_at={case.get('exit_at')} cancel_at={case.get('cancel_at')}: nothing left that could wake the program ({e})")
+        return out
     except Exception as e:  # noqa
         out.fail("sse-client-harness-raised", f"{type(e).__name__}: {e}")
+        return out
+    if state.get("hung"):
+        out.fail("leaving-the-context-hangs", f"exit={exit_path} exit_at={case.get('exit_at')} cancel_at={case.get('cancel_at')}: the context had not been left {3 * T + 30}s (virtual) later")
         return out
 
     # ------------------------------------------------------------------ classes
     race = any(r["mode"] in ("202-then-event", "event-then-202") and r.get("delta", 0) <= 0.02 for r in reqs)
     out.nontrivial = est["kind"] != "endpoint-event" or race or bool(cuts) or exit_path != "normal"
-    out.classes = (f"est:{est['kind']}", f"exit:{exit_path}", "race" if race else "no-race", "chunked" if cuts else "unchunked") + tuple(sorted({"mode:" + r["mode"] for r in reqs}))
+    out.classes = (f"est:{est['kind']}", f"exit:{exit_path}" + (":mid-request" if state.get("early_exit") and reqs else ""), "race" if race else "no-race", "chunked" if cuts else "unchunked") + tuple(sorted({"mode:" + r["mode"] for r in reqs}))
 
     # ------------------------------------------------------------------ establishment
     must_raise = (not will_announce) or delay > T + 1e-9
     may_either = will_announce and abs(delay - T) <= 1e-9
-    cancelled_during_entry = exit_path == "cancel" and case.get("cancel_at") is not None and not state["entered"]
+    cancelled_during_entry = exit_path in ("cancel", "task-cancel") and (case.get("cancel_at") is not None or exit_path == "task-cancel") and not state["entered"]
     if not state["entered"]:
         if cancelled_during_entry:
             pass
@@ -282,7 +324,7 @@ def check(case: Dict[str, Any]) -> Outcome:
         if must_raise:
             sig = "dead-connection-yielded"
             out.fail(sig, f"{est}: context entered after {state['t_enter_done']}s although no endpoint was announced; probe answered: {bool(state['probe'])}")
-        elif state["probe"] is not None and len(state["probe"]) != 1 and not state["cancelled"] and not (exit_path == "cancel" and case.get("cancel_at") is not None):
+        elif state["probe"] is not None and len(state["probe"]) != 1 and not state["cancelled"] and not (exit_path == "cancel" and case.get("cancel_at") is not None) and exit_path != "task-cancel":
             out.fail("live-connection-probe-not-answered", f"{est}: probe got {state['probe']!r}")
         if expect_url and posts and not must_raise:
             bad = [p["url"] for p in posts if p["url"] != expect_url]
@@ -290,7 +332,7 @@ def check(case: Dict[str, Any]) -> Outcome:
                 out.fail("post-url-differs-from-announced-endpoint", f"announced {expect_url!r}, posted to {bad[0]!r}")
 
     # ------------------------------------------------------------------ per request exactly-once
-    timed_cancel = exit_path == "cancel" and case.get("cancel_at") is not None
+    timed_cancel = (exit_path == "cancel" and case.get("cancel_at") is not None) or exit_path == "task-cancel" or bool(state.get("early_exit"))
     if state["entered"] and not must_raise and not timed_cancel:
         msgs = [m for _, m in state["received"]]
         for rq in reqs:
@@ -320,7 +362,7 @@ def check(case: Dict[str, Any]) -> Outcome:
             out.fail(sig, f"cuts={cuts} got {json.dumps(got)[:300]} want {json.dumps(want)[:300]}")
 
     # ------------------------------------------------------------------ release
-    if exit_path == "exception" and state["entered"] and not must_raise and state["body_exc"] is None:
+    if exit_path == "exception" and state["entered"] and not must_raise and state["body_exc"] is None and not state.get("hung"):
         out.fail("exception-in-body-swallowed", "")
     if state.get("n_clients", 0) and not all(state["clients_closed"]):
         out.fail("http-client-left-open", f"closed flags {state['clients_closed']} exit={exit_path} entered={state['entered']}")
@@ -361,10 +403,14 @@ def cases(draw):
             wire = {"jsonrpc": "2.0", "id": f"srv-{j}", "method": "roots/list"}
         srv.append({"dt": draw(st.sampled_from([0.0, 0.01, 0.1])), "wire": wire})
     cuts = draw(st.lists(st.integers(1, 200), max_size=5))
-    exit_path = draw(st.sampled_from(["normal", "normal", "normal", "exception", "cancel", "cancel"]))
+    exit_path = draw(st.sampled_from(["normal", "normal", "normal", "exception", "exception", "cancel", "cancel", "task-cancel"]))
     case: Dict[str, Any] = {"est": est, "timeout": T, "requests": reqs, "server_msgs": srv, "cuts": cuts, "exit": exit_path, "crlf": draw(st.booleans())}
     if exit_path == "cancel":
         case["cancel_at"] = draw(st.sampled_from([None, 0.0, 0.005, 0.05, 0.31, 1.0, 2.6]))
+    elif exit_path == "task-cancel":
+        case["cancel_at"] = draw(st.sampled_from([0.0, 0.005, 0.05, 0.31, 1.0, 2.6]))
+    elif draw(st.booleans()):
+        case["exit_at"] = draw(st.sampled_from([0.0, 0.005, 0.05, 0.31, 1.0, 2.6]))
     return case
 
 
@@ -378,7 +424,7 @@ def job_matrix(col: Collector, seed: int, tier: str, shard: int, nshards: int) -
         for d in ([0.01, 1.99, 2.0, 2.01] if k == "delayed" else [0.0]):
             for mode in MODES:
                 for rid in ("r-1", 7):
-                    for exit_path in ("normal", "exception", "cancel"):
+                    for exit_path in ("normal", "exception", "cancel", "normal@", "exception@", "task-cancel"):
                         i += 1
                         if i % nshards != shard:
                             continue
@@ -387,12 +433,16 @@ def job_matrix(col: Collector, seed: int, tier: str, shard: int, nshards: int) -
                             est["delay"] = d
                         case = {"est": est, "timeout": 2.0, "requests": [{"id": rid, "mode": mode, "delta": 0.01}],
                                 "server_msgs": [{"dt": 0.0, "wire": {"jsonrpc": "2.0", "method": "notifications/message", "params": {"level": "info", "data": "é"}}}],
-                                "cuts": [3, 17, 40] if i % 2 else [], "exit": exit_path, "crlf": bool(i % 3 == 0)}
+                                "cuts": [3, 17, 40] if i % 2 else [], "exit": exit_path.rstrip("@"), "crlf": bool(i % 3 == 0)}
                         if exit_path == "cancel":
                             case["cancel_at"] = [None, 0.05, 0.31][i % 3]
+                        elif exit_path == "task-cancel":
+                            case["cancel_at"] = [0.005, 0.05, 0.31][i % 3]
+                        elif exit_path.endswith("@"):
+                            case["exit_at"] = [0.005, 0.05, 0.31][i % 3]
                         col.record(case, check(case))
     if shard == 0:
-        col.exhaustive_parts.append("establishment kinds (incl. delays around the timeout) x 8 request modes x {str,int} id x 3 exit paths")
+        col.exhaustive_parts.append("establishment kinds (incl. delays around the timeout) x 8 request modes x {str,int} id x 6 exit paths (normal / exception after the traffic or mid-request, anyio scope cancellation, plain task cancellation)")
 
 
 def check_loopback(case: Dict[str, Any]) -> Outcome:
